@@ -33,8 +33,48 @@ def to_smt2(premises, goal, axioms):
     return s.to_smt2()
 
 
+def _model_inputs(s, ctx, spec):
+    """spec: list of (param, const name, kind[, size const name]); evaluates the model of solver s -> {param: python value}."""
+    m = s.model()
+    out = {}
+
+    def val(e):
+        v = m.eval(e, model_completion=True)
+        if z3.is_int_value(v):
+            return v.as_long()
+        if z3.is_rational_value(v):
+            return float(v.numerator_as_long()) / float(v.denominator_as_long())
+        if z3.is_true(v) or z3.is_false(v):
+            return z3.is_true(v)
+        if z3.is_algebraic_value(v):
+            return float(v.approx(12).numerator_as_long()) / float(v.approx(12).denominator_as_long())
+        raise ValueError('no concrete value for %s' % e)
+    I, R, B = z3.IntSort(ctx), z3.RealSort(ctx), z3.BoolSort(ctx)
+    n = None
+    for item in spec:
+        param, cname, kind = item[0], item[1], item[2]
+        if kind == 'int':
+            out[param] = val(z3.Const(cname, I))
+        elif kind == 'real':
+            out[param] = val(z3.Const(cname, R))
+        elif kind == 'bool':
+            out[param] = val(z3.Const(cname, B))
+        elif kind in ('mat', 'vec', 'ivec'):
+            nn = val(z3.Const(item[3], I))
+            if nn > 8:
+                raise ValueError('model too large to replay (n = %d)' % nn)
+            if kind == 'mat':
+                a = z3.Const(cname, z3.ArraySort(I, z3.ArraySort(I, R)))
+                out[param] = [[val(z3.Select(z3.Select(a, z3.IntVal(i, ctx)), z3.IntVal(j, ctx))) for j in range(nn)] for i in range(nn)]
+            else:
+                a = z3.Const(cname, z3.ArraySort(I, R if kind == 'vec' else I))
+                out[param] = [val(z3.Select(a, z3.IntVal(i, ctx))) for i in range(nn)]
+    return out
+
+
 def _solve(task):
-    name, smt, timeout_ms, seed = task
+    name, smt, timeout_ms, seed = task[:4]
+    mspec = task[4] if len(task) > 4 else None
     t0 = time.time()
     ctx = z3.Context()
     s = z3.Solver(ctx=ctx)
@@ -49,8 +89,11 @@ def _solve(task):
         if r == 'sat':
             try:
                 model = str(s.model())[:1500]
-            except Exception:
-                model = ''
+                if mspec:
+                    import json as _json
+                    model = 'INPUTS ' + _json.dumps(_model_inputs(s, ctx, mspec))
+            except Exception as e:
+                model = 'no replayable model: %r' % (e,)
     except z3.Z3Exception as e:
         r, reason, model = 'error', str(e)[:300], ''
     return name, r, time.time() - t0, reason, model
@@ -78,7 +121,7 @@ def _cvc5(task):
     return name, out, time.time() - t0
 
 
-def discharge(obls, timeout_s=30, axioms=None, use_cvc5=False, escalate=True, no_escalate=None):
+def discharge(obls, timeout_s=30, axioms=None, use_cvc5=False, escalate=True, no_escalate=None, model_spec=None):
     """obls: list of core.Obligation -> list of dict(name, status, backend, seconds, detail)."""
     axioms = core.spec_axioms() if axioms is None else axioms
     tasks, trivial = [], {}
@@ -88,10 +131,11 @@ def discharge(obls, timeout_s=30, axioms=None, use_cvc5=False, escalate=True, no
             trivial[o.name] = ('discharged' if z3.is_true(g) else 'open', 'syntactic', 0.0, '' if z3.is_true(g) else 'goal is literally false', o.kind)
             continue
         short = bool(no_escalate and no_escalate(o.name))      # expected-open (known finding): small budget, no escalation
-        tasks.append((o.name, to_smt2(o.premises, o.goal, axioms), int((min(timeout_s, 5) if short else timeout_s) * 1000), 0))
+        tasks.append((o.name, to_smt2(o.premises, o.goal, axioms), int((min(timeout_s, 5) if short else timeout_s) * 1000), 0, model_spec(o.name) if model_spec else None))
     res = {}
     for name, r, secs, reason, model in pmap(_solve, tasks):
         res[name] = (r, secs, reason, model)
+    tasks = [t[:4] for t in tasks]
     # escalation for open ones: longer budget + different seed
     if escalate:
         again = [(n, smt, int(timeout_s * 3000), 7) for (n, smt, _, _) in tasks if res[n][0] not in ('unsat',) and not (no_escalate and no_escalate(n))]
